@@ -28,6 +28,12 @@ class StmtMixin:
     def ex_Pass(self, node, st):
         pass
 
+    def ex_ImportFrom(self, node, st):
+        pass        # names are resolved against the model sources anyway
+
+    def ex_Import(self, node, st):
+        pass
+
     def ex_Expr(self, node, st):
         if isinstance(node.value, ast.Constant):
             return      # docstring
